@@ -2,6 +2,7 @@
 C15 — Schema.Check finds every dangling or unreciprocated relationship.
 -/
 import Jsonapi.Proofs.SchemaLemmas
+import Jsonapi.Proofs.C15Lemmas
 import Jsonapi.Generated.Facts
 namespace Jsonapi
 open Schema
@@ -118,8 +119,53 @@ example :
     let σ : Schema := { types := [a, b] }
     σ.checkCount = 2 := by decide
 
+/-! ### Independence of map iteration order
+
+`Check` ranges over each type's `Rels` map, and `GetType(...).Rels` is ranged over
+again for the inverse test. Go randomises map iteration order; the model's
+association lists fix one order. Two schemas are "the same up to map order" when
+they have the same types in the same slice order, each with the same name and the
+same attribute / relationship maps listed in possibly different orders. -/
+
+def SameUpToMapOrder (σ σ' : Schema) : Prop :=
+  Forall2 (fun t t' => t.name = t'.name ∧ t.attrs.Perm t'.attrs ∧ t.rels.Perm t'.rels)
+    σ.types σ'.types
+
+/-- The outcome of `Check` does not depend on map iteration order: the reported
+errors are the same multiset, their count is the same, and "no error" is the same. -/
+theorem C15_order_independent (σ σ' : Schema) (h : SameUpToMapOrder σ σ') :
+    (check σ).Perm (check σ') ∧ checkCount σ = checkCount σ' ∧
+      (check σ = [] ↔ check σ' = []) := by
+  have hp : (check σ).Perm (check σ') := C15L.check_perm h
+  refine ⟨hp, C15L.sum_foldl_perm hp, ?_⟩
+  constructor
+  · intro e; rw [e] at hp; exact hp.symm.eq_nil
+  · intro e; rw [e] at hp; exact hp.eq_nil
+
+/-! Non-vacuity: a two-type schema whose `Rels` maps are listed in two different
+orders; the hypothesis holds, the two `check` lists differ as lists (so the `Perm`
+is not an equality in disguise), and both report the same three errors. -/
+example :
+    let r1 : Rel := { fromType := gs "a", fromName := gs "x", toOne := true, toType := gs "b", toName := gs "y", fromOne := true }
+    let r2 : Rel := { fromType := gs "a", fromName := gs "z", toOne := false, toType := gs "c", toName := [], fromOne := false }
+    let r3 : Rel := { fromType := gs "b", fromName := gs "y", toOne := true, toType := gs "b", toName := gs "x", fromOne := true }
+    let r4 : Rel := { fromType := gs "b", fromName := gs "w", toOne := true, toType := gs "a", toName := [], fromOne := false }
+    let a  : Typ := { name := gs "a", attrs := [], rels := [(gs "x", r1), (gs "z", r2)] }
+    let a' : Typ := { name := gs "a", attrs := [], rels := [(gs "z", r2), (gs "x", r1)] }
+    let b  : Typ := { name := gs "b", attrs := [], rels := [(gs "y", r3), (gs "w", r4)] }
+    let b' : Typ := { name := gs "b", attrs := [], rels := [(gs "w", r4), (gs "y", r3)] }
+    let σ  : Schema := { types := [a, b] }
+    let σ' : Schema := { types := [a', b'] }
+    SameUpToMapOrder σ σ' ∧ σ.check ≠ σ'.check ∧ σ.check ≠ [] ∧
+      σ.checkCount = 3 ∧ σ'.checkCount = 3 := by
+  intro r1 r2 r3 r4 a a' b b' σ σ'
+  refine ⟨?_, by decide, by decide, by decide, by decide⟩
+  exact Forall2.cons ⟨rfl, List.Perm.refl _, List.Perm.swap _ _ _⟩
+    (Forall2.cons ⟨rfl, List.Perm.refl _, List.Perm.swap _ _ _⟩ Forall2.nil)
+
 #print axioms C15_sound_complete
 #print axioms C15_each
 #print axioms C15_pure_fact
 #print axioms C15_total
+#print axioms C15_order_independent
 end Jsonapi
